@@ -233,7 +233,13 @@ def r15_1_non_interference(ctx):
             else:
                 ctx.bad("R15.1", f"{f.qualname}:{txt[:60]}", f"`{txt[:100]}` makes control flow in code-generation code depend on source-map / frame state: the program with a source map could differ from the program without", where)
     f = ctx.model.find_func("Compilation._compile_impl", "pyteal.compiler.compiler")
-    tc = [n for n in walk_local(f.node) if isinstance(n, ast.Assign) and u(n.targets[0]) == "teal_code"]
+    vcalls = q.calls_named(f.node, "_validate_teal_identical", into_nested=False)
+    if len(vcalls) != 1:
+        ctx.bad("R15.1", "_compile_impl:identity-check-present", f"_compile_impl must compare the program compiled with frames against the one compiled without exactly once; found {len(vcalls)} call(s) of _validate_teal_identical", f.where)
+        return
+    vcall = vcalls[0]
+    tname = u(vcall.args[1])
+    tc = [n for n in walk_local(f.node) if isinstance(n, ast.Assign) and u(n.targets[0]) == tname]
     early = [n for n in walk_local(f.node) if isinstance(n, ast.If) and u(n.test) == "not with_sourcemap"]
     ctx.check(len(tc) == 1 and len(early) == 1 and tc[0].lineno < early[0].lineno, "R15.1", "_compile_impl:teal-before-sourcemap-branch", "teal_code must be computed before the first statement that depends on with_sourcemap (other than refusing the request)", f.where, fact={})
     ctx.require_min("R15.1", 10)
@@ -242,10 +248,14 @@ def r15_1_non_interference(ctx):
 def r15_2_validators(ctx):
     ctx.rule("R15.2", "self-validation lies on every path: with a source map requested _compile_impl recompiles without frames inside sourcemapping_off_context and compares both texts; build() ends in _validate_build; get_sourcemap / annotated_teal validate the annotated text; the off-context restores both gates in a finally")
     f = ctx.model.find_func("Compilation._compile_impl", "pyteal.compiler.compiler")
-    v = q.one(q.calls_named(f.node, "_validate_teal_identical", into_nested=False), "_compile_impl: _validate_teal_identical")
+    vs_ = q.calls_named(f.node, "_validate_teal_identical", into_nested=False)
+    if len(vs_) != 1:
+        ctx.bad("R15.2", "_compile_impl:identity-check", f"the identity check (_validate_teal_identical) must be called exactly once; found {len(vs_)}", f.where)
+        return
+    v = vs_[0]
     withs = [a for a in q.ancestors(v) if isinstance(a, ast.With) and "sourcemapping_off_context" in u(a.items[0].context_expr)]
     rec = [c for c in q.calls_named(f.node, "compileTeal", into_nested=False)]
-    ok = bool(withs) and len(rec) == 1 and any(a is withs[0] for a in q.ancestors(rec[0])) and [u(a) for a in v.args[:2]] == ["teal_code_wo", "teal_code"] and q.rtext(f.node, v.args[0]).startswith("compileTeal(self.ast, self.mode")
+    ok = bool(withs) and len(rec) == 1 and any(a is withs[0] for a in q.ancestors(rec[0])) and isinstance(v.args[1], ast.Name) and any(isinstance(d, ast.Call) and u(d.func).endswith(".join") for d in q.assigns_to(f.node, u(v.args[1]))) and q.rtext(f.node, v.args[0]).startswith("compileTeal(self.ast, self.mode")
     ctx.check(ok, "R15.2", "_compile_impl:identity-check", "the program compiled without frames must be compared with the program compiled with frames, inside sourcemapping_off_context", f"{f.module.rel}:{v.lineno}", fact={})
     kws = {k.arg: u(k.value) for k in rec[0].keywords} if rec else {}
     ctx.check(kws == {"version": "self.version", "assembleConstants": "self.assemble_constants", "optimize": "self.optimize"}, "R15.2", "_compile_impl:same-options", f"the second compilation must use the same version / assembleConstants / optimize; it uses {kws}", f.where, fact=kws)
